@@ -326,6 +326,51 @@ def cmd_tests(args):
     print(sum(1 for r in res.values() if r["tests"] == "pass"), "of", len(res), "pass the suite")
 
 
+EFFECT_ATTRS = {"on_next", "on_error", "on_completed", "subscribe", "schedule", "schedule_relative", "schedule_absolute", "schedule_periodic",
+                "dispose", "connect", "append", "add", "remove", "pop", "clear", "enqueue", "dequeue", "invoke", "acquire", "release", "notify", "wait",
+                "set_result", "set_exception", "cancel", "start", "join", "put", "get", "send", "throw", "close"}
+
+
+def auto_triage(m, src_cache={}):
+    """Mechanical triage of mutants that are equivalent by construction.  Returns a label or None (needs a human)."""
+    src = src_cache.get(m["file"])
+    if src is None:
+        src = src_cache[m["file"]] = open(os.path.join(REPO, m["file"])).read()
+    nodes = list(ast.walk(ast.parse(src)))
+    if m["idx"] >= len(nodes):
+        return None
+    n = nodes[m["idx"]]
+    if m["op"] == "DEL" and isinstance(n, ast.Expr) and isinstance(n.value, ast.Constant) and n.value.value is Ellipsis:
+        return "equivalent: `...` body of an overload / protocol stub"
+    if m["op"] == "DEL" and isinstance(n, ast.Expr) and ast.unparse(n) == "super().__init__()":
+        return "equivalent: base __init__ has no state (abc base / object)"
+    if m["op"] == "SWAP":
+        fname, k = m["extra"]
+        body = dict(_bodies(n)).get(fname)
+        if body is None or k + 1 >= len(body):
+            return None
+        a, b = body[k], body[k + 1]
+
+        def info(st):
+            stores = {x.id for x in ast.walk(st) if isinstance(x, ast.Name) and isinstance(x.ctx, ast.Store)}
+            stores |= {ast.unparse(x) for x in ast.walk(st) if isinstance(x, (ast.Attribute, ast.Subscript)) and isinstance(x.ctx, ast.Store)}
+            loads = {x.id for x in ast.walk(st) if isinstance(x, ast.Name) and isinstance(x.ctx, ast.Load)}
+            eff = any(isinstance(x, ast.Call) and isinstance(x.func, ast.Attribute) and x.func.attr in EFFECT_ATTRS for x in ast.walk(st)) \
+                or any(isinstance(x, ast.Call) and isinstance(x.func, ast.Name) and x.func.id in ("next", "print", "setattr") for x in ast.walk(st))
+            plain_calls = [x for x in ast.walk(st) if isinstance(x, ast.Call)]
+            return stores, loads, eff, plain_calls
+        sa_, la, ea, ca = info(a)
+        sb_, lb, eb, cb = info(b)
+        base = lambda names: {s_.split("[")[0].split(".")[0] for s_ in names}
+        if not ea and not eb and not (base(sa_) & (lb | base(sb_))) and not (base(sb_) & la) and isinstance(a, ast.Assign) and isinstance(b, ast.Assign):
+            # user callbacks may run in either RHS only if at most one of them calls anything non-constructor
+            risky = lambda calls: [c for c in calls if not (isinstance(c.func, ast.Name) and (c.func.id[:1].isupper() or c.func.id in ("iter", "len", "list", "dict", "set", "tuple", "max", "min", "cast", "RLock", "Lock")))
+                                   and not (isinstance(c.func, ast.Attribute) and c.func.attr in ("singleton", "to_seconds", "to_timedelta", "to_datetime", "copy"))]
+            if not (risky(ca) and risky(cb)):
+                return "equivalent: two independent assignments (no shared names, no effects) swapped"
+    return None
+
+
 def cmd_report(args):
     muts = {str(m["id"]): m for m in _load()}
     checks = json.load(open(os.path.join(OUT, "checks.json")))
@@ -354,9 +399,13 @@ def cmd_report(args):
         for op in sorted(byop):
             fh.write(f"| {op} | {byop[op]} | {byop_f[op]} |\n")
         fh.write("\n## Suite-passing mutants on which no check fires (triage)\n\n| id | file:line | mutation | triage |\n|---|---|---|---|\n")
+        n_auto = 0
         for m, c, t in tp:
             if not c["fired"]:
-                fh.write(f"| {m['id']} | {m['file']}:{m['line']} | {m['op']} {m['desc'].replace('|', '/')} | {tri.get(str(m['id']), '')} |\n")
+                lab = tri.get(str(m['id'])) or auto_triage(m) or ("analysis error (exit 2): " + "; ".join(c["errors"])[:90] if c["errors"] else "")
+                n_auto += bool(lab)
+                fh.write(f"| {m['id']} | {m['file']}:{m['line']} | {m['op']} {m['desc'].replace('|', '/')} | {lab} |\n")
+        fh.write(f"\n{n_auto} of these carry a triage label.\n")
     print(f"{n} valid; fired on {len(fired)}; suite-passing {len(tp)}: fired {len(tp_f)}, silent {len(tp) - len(tp_f)}")
 
 
